@@ -229,14 +229,14 @@ CONDITIONS = [
      'what': 'equal calls => equal keys under every kwargs / dict / set order and any excluded argument values; '
              'sharded by (argument shape, capture selection, static)',
      'tiers': {'quick': {'bounds': {'AL': 2, 'SL': 1}, 'timeout': 400, 'shards': _QSH, 'witness_shard': _W},
-               'thorough': {'bounds': {'AL': 4, 'SL': 3}, 'timeout': 1800, 'shards': _TSH, 'witness_shard': _W}}},
+               'thorough': {'bounds': {'AL': 3, 'SL': 2}, 'timeout': 3000, 'shards': _TSH, 'witness_shard': _W}}},
     {'fn': 'different_calls_different_keys', 'nontrivial': 'differing-calls',
      'what': 'a different alias / captured leaf / captured keyword value => a different key',
      'tiers': {'quick': {'bounds': {'AL': 2, 'SL': 2, 'IMAX': 100}, 'timeout': 300,
                          'shards': [{'shape': sh, 'capture': c, 'static': st, 'which': w} for sh in ('int', 'str', 'list', 'dict', 'nested')
                                     for c, st in (('all', False), ('by-position-and-name', True)) for w in range(4)],
                          'witness_shard': _W},
-               'thorough': {'bounds': {'AL': 3, 'SL': 3, 'IMAX': 1000}, 'timeout': 3000,
+               'thorough': {'bounds': {'AL': 3, 'SL': 2, 'IMAX': 1000}, 'timeout': 3000,
                             'shards': [dict(x, which=w) for x in _TSH for w in range(4)], 'witness_shard': _W}}},
     {'fn': 'resolver_alias', 'nontrivial': 'resolved',
      'what': 'resolver-formatted aliases separate calls exactly by the resolved parameters',
